@@ -246,7 +246,8 @@ class Executor(Exec):
         else:
             st.env = saved_env
             return None
-        st.pc.append(z3.And(lo <= j, j < hi))
+        rng = z3.And(lo <= j, j < hi)
+        st.pc.append(rng)
         self.binder_marks.append(([j], mark))
         try:
             cond = None
@@ -258,7 +259,7 @@ class Executor(Exec):
                 v = z3.If(cond, v, z3.IntVal(0))
         finally:
             self.binder_marks.pop()
-            self.close_binder(st, mark, [j])
+            self.close_binder(st, mark, [j], rng)
             st.env = saved_env
         self.lib_used.add("sum() over a range / filtered sequence = rsum(lambda, lo, hi): finite sum with unfolding / "
                           "extensionality / non-negativity axioms (T-rangesum, trusted)")
